@@ -1,63 +1,51 @@
-From Coq Require Import ZArith List Bool Lia ZifyBool.
+(* Exact model of nautilus/bounds/periodic.py (PhaseShift) on a grid.
+   A coordinate is an integer x in [0, 2N): the real number x / (2N); 0.5 is N.  On inputs that are multiples of
+   2^-k every floating-point operation of the implementation is exact, so there the implementation must equal this
+   model exactly (harness/c16.py).  Definitions first, proofs below; the property theorems are in P_C16.v. *)
+From Coq Require Import ZArith List Bool Lia ZifyBool Sorting.Mergesort Sorting.Sorted Permutation Orders.
 Import ListNotations.
 Ltac Zify.zify_post_hook ::= Z.to_euclidean_division_equations.
 Open Scope Z_scope.
 
-(* Coordinates are integers x in [0, 2N): the real number x / (2N).  0.5 is N. *)
+Module ZOrder <: TotalLeBool.
+  Definition t := Z.
+  Definition leb := Z.leb.
+  Theorem leb_total : forall a1 a2, leb a1 a2 = true \/ leb a2 a1 = true.
+  Proof. intros a b. unfold leb. lia. Qed.
+End ZOrder.
+Module ZSort := Sort ZOrder.
+
 Section Grid.
 Variable N : Z.
-Hypothesis Npos : 0 < N.
 
 Definition shift (c x : Z) : Z := (x + (N - c)) mod (2 * N).      (* (x + (-c + 0.5)) % 1 *)
 Definition unshift (c x : Z) : Z := (x - (N - c)) mod (2 * N).    (* inverse=True *)
+Definition tr1 (inverse : bool) (c x : Z) : Z := if inverse then unshift c x else shift c x.
 
-Lemma shift_range c x : 0 <= shift c x < 2 * N.
-Proof. unfold shift. apply Z.mod_pos_bound. lia. Qed.
-Lemma unshift_range c x : 0 <= unshift c x < 2 * N.
-Proof. unfold unshift. apply Z.mod_pos_bound. lia. Qed.
+(* PhaseShift.transform: `for i, dim in enumerate(periodic): points_t[:, dim] = ...`; coordinate j of a point goes
+   through every (dim, centre) pair with dim = j, in order *)
+Fixpoint app1 (j : nat) (per : list nat) (cs : list Z) (inv : bool) (x : Z) : Z :=
+  match per, cs with
+  | d :: per', c :: cs' => app1 j per' cs' inv (if Nat.eqb d j then tr1 inv c x else x)
+  | _, _ => x
+  end.
+Fixpoint mapi_from {A B} (i : nat) (f : nat -> A -> B) (l : list A) : list B :=
+  match l with [] => [] | x :: r => f i x :: mapi_from (S i) f r end.
+Definition transform (per : list nat) (cs : list Z) (inv : bool) (pt : list Z) : list Z :=
+  mapi_from 0%nat (fun j x => app1 j per cs inv x) pt.
 
-Lemma unshift_shift c x : 0 <= x < 2 * N -> unshift c (shift c x) = x.
-Proof.
-  unfold shift, unshift. intros H. rewrite Zminus_mod_idemp_l.
-  replace (x + (N - c) - (N - c)) with x by lia. apply Z.mod_small. lia.
-Qed.
-Lemma shift_unshift c x : 0 <= x < 2 * N -> shift c (unshift c x) = x.
-Proof.
-  unfold shift, unshift. intros H. rewrite Zplus_mod_idemp_l.
-  replace (x - (N - c) + (N - c)) with x by lia. apply Z.mod_small. lia.
-Qed.
-
-(* centre from the largest circular gap: gap starts at point a (value a), has even length g (so g/2 is on the grid) *)
+(* PhaseShift.compute, one periodic dimension: x = sort(values); dx = append(diff(x), x[0] - (x[-1] - 1));
+   centre = (x[argmax dx] + max(dx)/2 + 0.5) % 1 *)
+Fixpoint diffs (xs : list Z) : list Z :=
+  match xs with a :: ((b :: _) as r) => (b - a) :: diffs r | _ => [] end.
+Definition gaps (xs : list Z) : list Z := diffs xs ++ [hd 0 xs - (last xs 0 - 2 * N)].
+Fixpoint argmax_go (i best : nat) (bv : Z) (l : list Z) : nat * Z :=     (* np.argmax: the first maximum *)
+  match l with [] => (best, bv) | v :: r => if Z.ltb bv v then argmax_go (S i) i v r else argmax_go (S i) best bv r end.
+Definition argmax (l : list Z) : nat * Z := match l with [] => (0%nat, 0) | v :: r => argmax_go 1 0 v r end.
 Definition centre (a g : Z) : Z := (a + g / 2 + N) mod (2 * N).
+Definition centre_sorted (xs : list Z) : Z := let '(i, g) := argmax (gaps xs) in centre (nth i xs 0) g.
+Definition compute_centre (vals : list Z) : Z := centre_sorted (ZSort.sort vals).
 
 (* circular distance from a going up to x *)
 Definition up (a x : Z) : Z := (x - a) mod (2 * N).
-
-(* if no construction point lies strictly inside the open arc (a, a+g), then after the shift every
-   point is at distance >= g/2 from both ends of the unit interval *)
-Lemma shift_centre a g x : shift (centre a g) x = (up a x - g / 2) mod (2 * N).
-Proof.
-  unfold shift, centre, up.
-  replace (x + (N - (a + g / 2 + N) mod (2 * N))) with ((x + N) - (a + g / 2 + N) mod (2 * N)) by lia.
-  rewrite Zminus_mod_idemp_r, Zminus_mod_idemp_l. f_equal. lia.
-Qed.
-
-Lemma gap_straddles a g x :
-  0 <= a < 2 * N -> 0 <= x < 2 * N -> 0 <= g <= 2 * N -> g mod 2 = 0 ->
-  (up a x = 0 \/ g <= up a x) ->
-  g / 2 <= shift (centre a g) x <= 2 * N - g / 2.
-Proof.
-  intros Ha Hx Hg He Hout. rewrite shift_centre.
-  assert (Hu : 0 <= up a x < 2 * N) by (unfold up; apply Z.mod_pos_bound; lia).
-  assert (Hg2 : 0 <= g / 2 /\ 2 * (g / 2) = g) by (split; [apply Z.div_pos; lia | pose proof (Z.div_mod g 2); lia]).
-  destruct Hg2 as [Hh0 Hh]. set (h := g / 2) in *. clearbody h.
-  destruct Hout as [H0|Hge].
-  - rewrite H0. destruct (Z.eq_dec h 0) as [E0|Hn].
-    + rewrite E0. rewrite Z.mod_0_l by lia. lia.
-    + assert (E : (0 - h) mod (2 * N) = 2 * N - h).
-      { symmetry. apply (Z.mod_unique _ _ (-1)); lia. }
-      rewrite E. lia.
-  - rewrite Z.mod_small by lia. lia.
-Qed.
 End Grid.
-Print Assumptions gap_straddles.
